@@ -23,7 +23,7 @@ BUDGET_S = {'quick': 90, 'thorough': 1500}
 
 
 def plan(tier, seed):
-    return [('echo', 400 if tier == 'quick' else 15000), ('periodic', 500 if tier == 'quick' else 20000)]
+    return [('echo', 3000 if tier == 'quick' else 30000), ('periodic', 3000 if tier == 'quick' else 40000)]
 
 
 async def _echo(rng, desc):
